@@ -124,6 +124,12 @@ def _model_fitting_processor_factory(
 
     # Determine output key
     output_key = context_key or ModelFittingContextProcessor.CONTEXT_OUTPUT_KEY
+    if not isinstance(output_key, str):
+        # The key is declared as a created context key of the generated class:
+        # context keys are strings (a YAML number or boolean is a configuration error).
+        raise TypeError(
+            f"context_key must be a string, got {type(output_key).__name__}: {output_key!r}"
+        )
 
     # Parse dependent variable key to separate parameter name from nested path
     if "." in dependent_var_key:
